@@ -335,4 +335,32 @@ theorem checkAll_decomposes (x : Hdr.Ext) (cs : Hdr.CharsetCheck) (now : Int) (f
           subst e2 e3
           exact e4.symm
 
+/-! ### a PO catalog and the MO catalog compiled from it -/
+
+/-- the PO entry (C10's `Po.Entry`) of a message without PO-only features, from the message as an MO file holds it -/
+def poOfMo (e : Mo.Entry) : Po.Entry :=
+  match e.body with
+  | .singular s => { msgctxt := e.msgctxt, msgid := e.msgid, msgstr := some s }
+  | .plural p fs => { msgctxt := e.msgctxt, msgid := e.msgid, msgidPlural := some p, msgstrPlural := enumerate 0 fs }
+
+/-- lib/check/ cannot tell the two loaders' entries apart, for a translated message -/
+theorem observe_poOfMo (e : Mo.Entry) (h : Translated e) : observe (ofPoEntry (poOfMo e)) = observe (ofMo e) := by
+  unfold Translated at h
+  unfold poOfMo ofPoEntry ofMo observe Po.translated
+  cases hb : e.body with
+  | singular s =>
+    rw [hb] at h
+    cases s with
+    | nil => exact absurd rfl h
+    | cons c t => simp
+  | plural p fs =>
+    rw [hb] at h
+    simp only at h
+    have := enumerate_any (fun x => !x.isEmpty) 0 fs
+    have h' : (fs.any fun x => !x.isEmpty) = true := by
+      rw [← h]; congr 1; funext x; cases x <;> rfl
+    simp [this, h']
+
+theorem observe_content (e : Po.Entry) : observe (ofPoEntry (Lemmas.PoCatalog.content e)) = observe (ofPoEntry e) := rfl
+
 end I18n.Meta.Real
